@@ -257,6 +257,22 @@ pub fn run(ctx: &Ctx) -> Report {
             ("time length 3", vec![0, 1, 0x0b, 0, 3, 0, 3, 1, 2, 3, 9, 0, 0, 0]),
             ("flag byte 2", vec![0, 2, 3, 0, 3, 0, 1, 0, 0, 0, 2, 0, 0, 0]),
         ];
+        // a length-encoded value whose multi-byte length prefix (0xfc + 2, 0xfd + 3, 0xfe + 8 bytes)
+        // is itself cut short by the end of the packet, for every length-encoded type code, as the
+        // first and as the last parameter
+        let mut variants = variants;
+        let mut owned: Vec<(String, Vec<u8>)> = Vec::new();
+        for t in [0x00u8, 0x0f, 0xf5, 0xf6, 0xf7, 0xf8, 0xf9, 0xfa, 0xfb, 0xfc, 0xfd, 0xfe, 0xff, 0x10] {
+            for pre in [vec![0xfcu8], vec![0xfc, 1], vec![0xfd], vec![0xfd, 1], vec![0xfd, 1, 2], vec![0xfe], vec![0xfe, 1, 2, 3], vec![0xfe, 1, 2, 3, 4, 5, 6, 7], vec![0xfb], vec![0xff]] {
+                let mut first = vec![0, 1, t, 0, 3, 0];
+                first.extend(&pre);
+                owned.push((format!("type 0x{:02x} first, length prefix cut short after {} bytes (0x{:02x})", t, pre.len(), pre[0]), first));
+                let mut last = vec![0, 1, 3, 0, t, 0, 1, 0, 0, 0];
+                last.extend(&pre);
+                owned.push((format!("type 0x{:02x} last, length prefix cut short after {} bytes (0x{:02x})", t, pre.len(), pre[0]), last));
+            }
+        }
+        let variants: Vec<(String, Vec<u8>)> = variants.drain(..).map(|(n, b)| (n.to_string(), b)).chain(owned).collect();
         for (name, tailb) in variants {
             let mut p = hdr.clone();
             p.extend(tailb);
